@@ -14,6 +14,7 @@
  * op:    rs:<sock> nice_component_remove_socket   td teardown (conn_check_prune_stream, discovery_prune_stream, nice_component_close)
  *        dp:<sock> discovery_prune_socket  rp:<sock> refresh_prune_socket  rc:<cand> refresh_prune_candidate  cp:<sock> conn_check_prune_socket
  *        ds:<sock> nice_component_detach_socket  cs nice_component_clear_selected_pair  ps conn_check_prune_stream
+ *        rb:<sock> (not part of the tie) remove_socket, then nice_socket_is_based_on (turn_candidate->sockptr, first attached socket) as agent.c does on the next packet
  * out:   <case> f=0 c=<state> K=<sockets not closed> L=.. R=.. U=.. X=.. P=.. T=.. I=.. S=.. D=.. F=.. Q=..   (or "<case> f=A" after a failed g_assert)
  */
 #include "hcommon.h"
@@ -103,6 +104,9 @@ int main (void)
     char *oa = strchr (opstr, ':'); int arg = oa ? atoi (oa + 1) : -1; int faulted = 0;
     if (HC_TRY) {
       if (!strncmp (opstr, "rs", 2)) nice_component_remove_socket (ag, cm, socks[arg]);
+      else if (!strncmp (opstr, "rb", 2)) {   /* remove the socket, then what _agent_recv_turn_message_unlocked (agent.c) does for the next packet on any other socket */
+        nice_component_remove_socket (ag, cm, socks[arg]);
+        if (cm->turn_candidate && cm->socket_sources) nice_socket_is_based_on (cm->turn_candidate->sockptr, ((SocketSource *) cm->socket_sources->data)->socket); }
       else if (!strncmp (opstr, "td", 2)) { conn_check_prune_stream (ag, st); discovery_prune_stream (ag, sid); nice_component_close (ag, st, cm); }
       else if (!strncmp (opstr, "dp", 2)) discovery_prune_socket (ag, socks[arg]);
       else if (!strncmp (opstr, "rp", 2)) refresh_prune_socket (ag, socks[arg]);
